@@ -132,6 +132,8 @@ func (g *gen) strSchema() *Sch {
 	n := g.r.Intn(4)
 	if g.r.Chance(30) {
 		n = 0
+	} else if g.r.Chance(12) {
+		n = 4 + g.r.Intn(2) // long chains: several pattern-producing checks on one schema
 	}
 	for i := 0; i < n; i++ {
 		switch g.r.Intn(14) {
@@ -384,7 +386,7 @@ func (g *gen) schema(depth int, top bool) *Sch {
 		for i := 0; i < n; i++ {
 			f := g.schema(depth-1, false)
 			f = g.wrap(f, 35, 0)
-			if i > 0 && g.r.Chance(12) {
+			if i > 0 && g.r.Chance(20) {
 				f = s.Fields[g.r.Intn(i)].S // the same node (live instance) under two names
 			}
 			s.Fields = append(s.Fields, Field{Name: fieldNames[i], S: f})
@@ -420,7 +422,7 @@ func (g *gen) schema(depth int, top bool) *Sch {
 			if g.r.Chance(25) {
 				it = g.wrap(it, 100, 0)
 			}
-			if i > 0 && g.r.Chance(12) {
+			if i > 0 && g.r.Chance(20) {
 				it = s.Items[g.r.Intn(i)]
 			}
 			s.Items = append(s.Items, it)
@@ -532,6 +534,10 @@ func (g *gen) strCands(s *Sch) []*J {
 				out = append(out, mk(n, fill), mk(n+1, fill))
 			}
 		}
+	}
+	// the fixed parts kept, the filling varied over the character classes the pattern checks tell apart
+	for _, c := range []string{"m", "M", "1", "x"} {
+		out = append(out, mk(int64(len(core))+1, c), mk(int64(len(core))+2, c))
 	}
 	out = append(out, jStr(""), jStr(core), jStr("mm"), jStr("MM"))
 	if pre != "" || suf != "" || inc != "" {
@@ -777,6 +783,9 @@ func (g *gen) cands(s *Sch, depth int) []*J {
 					}
 				}
 				out = append(out, m, m.with("zz", jInt(1)))
+			}
+			if a.T == "a" && b.T == "a" {
+				out = append(out, jArr()) // the one array two unrelated element schemas agree on
 			}
 		}
 		for _, m := range s.Items {
